@@ -20,7 +20,6 @@ func bLen(s StrV) *smt.Term {
 	return lc(len(s.Bytes))
 }
 
-
 // bByteAt: byte at symbolic position i (BV16); caller guarantees i < len.
 func bByteAt(s StrV, i *smt.Term) *smt.Term {
 	if i.IsConst() {
